@@ -70,10 +70,12 @@ def run_chains(args):
                 rel = names[l:start] if l < start else []
                 nxt = names[l] if l < n else 'zz'
                 ign = lv['ign']
+                # (a directory may be named with a trailing slash: it is the same directory)
+                slash = '/' if rng.random() < 0.25 else ''
                 if ign == 'path':
-                    ents.append({'tag': 'IGNORE', 'path': '/'.join(rel) if rel else nxt + '/deeper', 'size': 0, 'ck': {}})
+                    ents.append({'tag': 'IGNORE', 'path': ('/'.join(rel) if rel else nxt + '/deeper') + slash, 'size': 0, 'ck': {}})
                 elif ign == 'anc':
-                    ents.append({'tag': 'IGNORE', 'path': nxt, 'size': 0, 'ck': {}})
+                    ents.append({'tag': 'IGNORE', 'path': nxt + slash, 'size': 0, 'ck': {}})
                 elif ign == 'sib':
                     ents.append({'tag': 'IGNORE', 'path': 'sibling-of-' + nxt, 'size': 0, 'ck': {}})
                 elif ign == 'look':
